@@ -33,7 +33,9 @@ import (
 )
 
 const (
-	nTxIDs   = 48
+	nSmallTx = 48 // ids below: id%3 logs each
+	nTxIDs   = 56 // ids 48..55: bigLogs logs each (a LOG0 loop), to cross reorg's 512-log chunking
+	bigLogs  = 300
 	maxDepth = 12
 )
 
@@ -44,6 +46,7 @@ var (
 	log1Addr = common.HexToAddress("0x00000000000000000000000000000000000c3801")
 	log2Addr = common.HexToAddress("0x00000000000000000000000000000000000c3802")
 	sinkAddr = common.HexToAddress("0x00000000000000000000000000000000000c3800")
+	loopAddr = common.HexToAddress("0x00000000000000000000000000000000000c3803")
 )
 
 func init() {
@@ -61,6 +64,8 @@ func genesisSpec() *core.Genesis {
 	alloc := types.GenesisAlloc{
 		log1Addr: {Code: common.FromHex("60006000a000"), Balance: big.NewInt(0)},
 		log2Addr: {Code: common.FromHex("60006000a060006000a000"), Balance: big.NewInt(0)},
+		// cnt := 300; do { LOG0(0,0); cnt-- } while cnt != 0
+		loopAddr: {Code: common.FromHex("61012c5b60006000a0600190038060035700"), Balance: big.NewInt(0)},
 	}
 	for _, k := range txKeys {
 		alloc[crypto.PubkeyToAddress(k.PublicKey)] = types.Account{Balance: new(big.Int).Exp(big.NewInt(10), big.NewInt(20), nil)}
@@ -68,19 +73,28 @@ func genesisSpec() *core.Genesis {
 	return &core.Genesis{Config: chainCfg, Alloc: alloc, BaseFee: big.NewInt(params.InitialBaseFee), GasLimit: 30_000_000, Difficulty: big.NewInt(131072)}
 }
 
-// tx id -> the one transaction with that id (sender key id, nonce 0); id%3 logs.
+func logsOfTx(id int) int {
+	if id >= nSmallTx {
+		return bigLogs
+	}
+	return id % 3
+}
+
+// tx id -> the one transaction with that id (sender key id, nonce 0); logsOfTx(id) logs.
 func txOf(id int) *types.Transaction {
 	if tx, ok := txCache[id]; ok {
 		return tx
 	}
-	to := sinkAddr
-	switch id % 3 {
-	case 1:
+	to, gas := sinkAddr, uint64(100000)
+	switch {
+	case id >= nSmallTx:
+		to, gas = loopAddr, 400000
+	case id%3 == 1:
 		to = log1Addr
-	case 2:
+	case id%3 == 2:
 		to = log2Addr
 	}
-	tx, err := types.SignTx(types.NewTx(&types.LegacyTx{Nonce: 0, To: &to, Value: big.NewInt(0), Gas: 100000,
+	tx, err := types.SignTx(types.NewTx(&types.LegacyTx{Nonce: 0, To: &to, Value: big.NewInt(0), Gas: gas,
 		GasPrice: big.NewInt(100 * params.GWei)}), types.LatestSigner(chainCfg), txKeys[id])
 	if err != nil {
 		panic(err)
@@ -128,7 +142,7 @@ func parseCase(c Sx) *caseSpec {
 				bad("tx arity")
 			}
 			id, nl := int(AsInt(tf[0])), int(AsInt(tf[1]))
-			if id < 0 || id >= nTxIDs || nl != id%3 {
+			if id < 0 || id >= nTxIDs || nl != logsOfTx(id) {
 				bad("tx id / nlogs")
 			}
 			b.txs = append(b.txs, id)
@@ -240,10 +254,10 @@ func (w *world) buildBlocks() {
 		idx := 0
 		for ti, r := range rs[0] {
 			for range r.Logs {
-				w.logsOf[b.id] = append(w.logsOf[b.id], int64((b.id*4096+b.txs[ti])*64+idx))
+				w.logsOf[b.id] = append(w.logsOf[b.id], int64((b.id*4096+b.txs[ti])*4096+idx))
 				idx++
 			}
-			if len(r.Logs) != b.txs[ti]%3 {
+			if len(r.Logs) != logsOfTx(b.txs[ti]) {
 				bad("tx did not emit the expected number of logs")
 			}
 		}
@@ -288,7 +302,7 @@ func (w *world) logID(l *types.Log) int64 {
 	if !ok || !ok2 {
 		return -2
 	}
-	return int64((b*4096+t)*64 + int(l.Index))
+	return int64((b*4096+t)*4096 + int(l.Index))
 }
 
 func errClass(err error) int64 {
@@ -400,8 +414,18 @@ func (w *world) observe(class int64, e evs) Sx {
 			lk = append(lk, L(U(*n)))
 		}
 	}
+	// the public, cached path: BlockChain.GetCanonicalTransaction (queried after every
+	// operation, so the lookup cache is warm when the next operation reorganises the chain)
+	rs := SL{}
+	for _, t := range w.cs.txids {
+		if lk, _ := w.bc.GetCanonicalTransaction(txOf(t).Hash()); lk == nil {
+			rs = append(rs, L())
+		} else {
+			rs = append(rs, L(I(w.id(lk.BlockHash)), U(lk.BlockIndex)))
+		}
+	}
 	heads := L(I(w.id(w.bc.CurrentBlock().Hash())), I(w.id(w.bc.CurrentHeader().Hash())), I(w.id(w.bc.CurrentSnapBlock().Hash())))
-	return L(I(class), canon, heads, lk, ids(e.chain), idss(e.removed), idss(e.logs), ids(e.head))
+	return L(I(class), canon, heads, lk, rs, ids(e.chain), idss(e.removed), idss(e.logs), ids(e.head))
 }
 
 // canonical chain as stored: ids for numbers 0..head header number (nil on a gap)
@@ -443,7 +467,7 @@ type opInfo struct {
 	knownBefore map[int]bool // blocks named by the operation that were stored with state before it
 }
 
-func logBlock(x int64) int { return int(x / (4096 * 64)) }
+func logBlock(x int64) int { return int(x / (4096 * 4096)) }
 
 // The direct property oracle, evaluated on the database after one operation.  It returns
 // the failures that are NOT one of the recorded deviations first ("real"), then the
